@@ -29,8 +29,15 @@ def lvid(n):
     return {"k": "id", "n": n}
 
 
+NUMMER = {"d": "Nummer", "of": TZ}
+KENNUNG = {"d": "Kennung", "of": TT}
+TYPEDECLS_SEM = ["Wir definieren eine Nummer als eine Zahl.", "Wir definieren eine Kennung als einen Text.", ""]
+
+
 def print_value(e, t, tmp):
     """statements printing the value of expression e of type t on the current line (no line feed)"""
+    if "d" in t:           # a type definition is printed as its underlying type
+        return print_value(cast(t["of"], e), t["of"], tmp)
     if "b" in t:
         if t["b"] == "V":
             return [pr(lit(T("<var>")))]
@@ -65,7 +72,7 @@ def batch_program(cases, pid, funcs=(), nearly_stmts=()):
     for i, c in enumerate(cases):
         body = c.setup + [pr(lit(T("#%d:" % i)))] + print_value(c.expr, c.t, "c%d" % i) + [pr(lit(T("")), True)]
         main.append({"k": "block", "body": body})
-    return dict(id=pid, structs=list(STRUCTS.values()), funcs=list(funcs), main=main, nearly=n0, cases=[c.key for c in cases])
+    return dict(id=pid, structs=list(STRUCTS.values()), funcs=list(funcs), main=main, nearly=n0, cases=[c.key for c in cases], typedecls=list(TYPEDECLS_SEM))
 
 
 def first_diff_case(expected, observed):
@@ -691,9 +698,15 @@ def domain_cases(tier, rng):
     # Variable -> type conversions: only the held type succeeds
     held = [("Z", TZ, zl(5)), ("K", TK, lit(K(3, 1))), ("B", TBY, lit(B(7))), ("W", TW, lit(W(True))), ("C", TC, lit(C("c"))), ("T", TT, lit(T("t"))),
             ("LZ", TL(TZ), lit(L(TZ, [Z(1)]))), ("LT", TL(TT), lit(L(TT, [T("x")]))), ("P", TS("Paar"), new("Paar", zahl=zl(1), wort=lit(T("w"))))]
+    held += [("DN", NUMMER, cast(NUMMER, zl(5))), ("DK", KENNUNG, cast(KENNUNG, lit(T("k"))))]      # type definitions are types of their own
     for hn, ht, he in held:
         for tn, tt, _ in held:
             add("varcast:%s:%s" % (hn, tn), [var("v", TV, cast(TV, he), False)], cast(tt, ident("v")), tt)
+            add("vartest:%s:%s" % (hn, tn), [var("v", TV, cast(TV, he), False)], {"k": "tchk", "l": ident("v"), "t": tt}, TW)
+    add("typedef:roundtrip", [var("n", NUMMER, cast(NUMMER, zl(41)), False), var("z", TZ, bin_("plus", cast(TZ, ident("n")), zl(1)), False), setv(lvid("n"), cast(NUMMER, ident("z")))], ident("n"), NUMMER)
+    add("typedef:default", [var("n", NUMMER, {"k": "std", "t": NUMMER}, False)], ident("n"), NUMMER)
+    add("typedef:equal", [var("n", NUMMER, cast(NUMMER, zl(3)), False)], bin_("eq", ident("n"), cast(NUMMER, zl(3))), TW)
+    add("typedef:list", [var("ln", TL(NUMMER), {"k": "list", "et": NUMMER, "vals": [cast(NUMMER, zl(1)), cast(NUMMER, zl(2))]}, False)], cast(TZ, bin_("idx", ident("ln"), zl(2))), TZ)
     cases.append(Case("todo", lit(Z(1)), TZ, [{"k": "todo"}]))
     cases.append(Case("todo:in-function-not-called", lit(Z(1)), TZ, []))
     return cases
